@@ -72,14 +72,14 @@ def wrap_key(keyarg: str, key, other):
 
 
 def headers_for(sc, alg):
-    base = {"alg": alg, "cty": "t/x", "x5t": "dGh1bWI"}
+    base = {"alg": alg, "cty": "t/x \u00e9\u4e2d", "x5t": "dGh1bWI"}
     b = {}
     if sc["b64"] != "absent":
         b = {"b64": sc["b64"] == "true", "crit": ["b64"]}
     if sc["place"] == "protected":
         return {**base, **b}, None
     if sc["place"] == "split":
-        return {"alg": alg, **b}, {"cty": "t/x", "x5t": "dGh1bWI"}
+        return {"alg": alg, "typ": "typ \u00fc", **b}, {"cty": "t/x \u00e9\u4e2d", "x5t": "dGh1bWI"}
     return None, base
 
 
